@@ -175,7 +175,7 @@ prop("C13", ["PepitVerif/Props/C13.lean", "PepitVerif/Props/C13Hist.lean"],
      direct=[oracle("c13_resolve", 32, 240)])
 
 prop("C15", ["PepitVerif/Props/C15.lean", "PepitVerif/Math/PartitionSem.lean", "PepitVerif/Props/C13Hist.lean"],
-     streams=[stream("cls (block-smooth functions, partitions with 1-3 blocks)", "cls", 250, 4000, env={"PEPV_CLS_FOCUS": "BlockSmoothConvexFunction"}, offset=37),
+     streams=[stream("cls (block-smooth functions, partitions with 1-3 blocks, 4-12 in the large programs)", "cls", 250, 4000, env={"PEPV_CLS_FOCUS": "BlockSmoothConvexFunction"}, offset=37),
               stream("collect (partition constraints sent)", "collect", 100, 2000, offset=41)],
      direct=[oracle("c15_blocks", 100, 2000)])
 
